@@ -1013,7 +1013,40 @@ def parse_uint(it, s, bits=64, radix=10, allow_plus=True):
                 return Ok(bv(v, bits))
         return Err(Struct('ParseIntError', []))
     M = s.maxlen
-    W = bits + 8 + 4 * M
+    cn = conc(s.len)
+    if cn is not None and radix == 10:
+        # concrete layout: optional '+', then digits; overflow decided by a lexicographic comparison with the decimal text of
+        # the maximum (equal-length digit strings compare like numbers), the value by 64-bit Horner (no overflow when valid)
+        def attempt(start):
+            n = cn - start
+            if n <= 0:
+                return z3.BoolVal(False), None
+            ds = [s.at(i) for i in range(start, cn)]
+            alld = z3.And(*[z3.And(z3.UGE(d, 0x30), z3.ULE(d, 0x39)) for d in ds])
+            mx = str((1 << bits) - 1)
+            if n < len(mx):
+                fits = z3.BoolVal(True)
+            else:
+                ref = ('0' * (n - len(mx)) + mx).encode()
+                fits = z3.BoolVal(True)
+                for d, r in reversed(list(zip(ds, ref))):
+                    fits = z3.Or(z3.ULT(d, r), z3.And(d == r, fits))
+            acc = z3.BitVecVal(0, bits)
+            for d in ds:
+                acc = acc * 10 + z3.ZeroExt(bits - 8, d - 0x30)
+            return z3.And(alld, fits), acc
+        if allow_plus and cn >= 1 and ctx.branch(s.at(0) == 0x2b):
+            ok, acc = attempt(1)
+        else:
+            ok, acc = attempt(0)
+        if acc is not None and ctx.branch(ok):
+            v = ctx.fresh_bv('parsed', bits)
+            ctx.add(v == acc)
+            return Ok(v)
+        return Err(Struct('ParseIntError', []))
+    W = bits + 8 + 4 * min(M, 24)
+    if M > 24:
+        raise Unsupported('integer parse of a symbolic-length string longer than 24 bytes')
     plus = z3.And(z3.UGE(s.len, 1), s.at(0) == 0x2b) if allow_plus else z3.BoolVal(False)
     start = z3.If(plus, bv(1), bv(0))
 
